@@ -3,6 +3,7 @@ from __future__ import annotations
 import itertools, json, math
 import numpy as np
 from .. import core, gen
+from . import c18_big
 
 ID = 'C18'
 LEVEL = 'proof'
@@ -10,7 +11,12 @@ RULE = ('corpus; structured random float64 arrays of 1-3 dimensions (axis length
         'random values) x orders 1-4 x six border modes x prefilter on/off x seven memory layouts; shifts per axis from '
         '{zero, integer, k/8, negative, larger than the array, arbitrary}; zoom by explicit target shape '
         '({1,2,n,2n-1,2n,random}) or by factor; spline_filter / spline_filter1d; imresize / resize_to / resize_rgb_to; '
-        'invalid out buffers. Non-trivial = the result differs from the input or has another shape; '
+        'invalid out buffers; zoom output shapes for 1500 factor vectors (ties k/s and their float neighbours, tiny, large, '
+        'negative, non-finite, integer, scalar/sequence, wrong length); resize_to on integer images (7 dtypes); '
+        'a size-threshold stream (tag size=threshold: 5 cases per quick run whose line length crosses 2^8, 2^15, 2^16 +-1, '
+        'a 257x256 image; thorough: lines of 65537 / 70001 samples in both orientations and 2^24+1 elements) judged by an '
+        'exact O(N) numpy oracle (translation with the border rule, identity, separable linear interpolation, integer-'
+        'weight B-spline expansion) whose agreement with the Lean driver is checked on small twins (size=small). Non-trivial = the result differs from the input or has another shape; '
         'distinct = distinct protocol line + layout.')
 ASSUMPTIONS = [
     'float64 data, finite, |values| <= 1e3; sizes < 2^31',
@@ -34,6 +40,8 @@ TOL = 1e-9
 
 
 def _arr(case):
+    if case.get('kind') == 'big':
+        return c18_big.data(case['shape'])
     return np.array(case['data'], dtype=np.float64).reshape(case['shape'])
 
 
@@ -147,6 +155,8 @@ def _run_impl(case):
                 r['is_out'] = r['out'] is o
             else:
                 r['out'] = ip.zoom(Al, case['factor'], **kw)
+        elif k == 'big':
+            r['out'] = c18_big.run(case, Al)
         elif k == 'zshape':
             fac = case['factor']
             r['out'] = ip.zoom(Al, tuple(fac) if isinstance(fac, list) and case.get('astuple') else fac, order=1)
@@ -249,6 +259,21 @@ def evaluate(cases):
             lines.append(f"c18 kind=osh shape={gen.enc_shape(c['shape'])}" + _factor_args(c['factor']))
             owner.append((ci, 'osh'))
             continue
+        if k == 'big':
+            if c.get('small') and 'raised' not in r:
+                A = _arr(c)
+                flat = [float(x) for x in A.ravel().tolist()]
+                if c['op'] == 'shift':
+                    ps = dict(kind='shift', shape=c['shape'], data=flat, order=c['order'], mode=c['mode'], shift=c['shift'])
+                    lines.append(_zs_line(ps)); owner.append((ci, 'zs'))
+                elif c['op'] == 'sf':
+                    lines.append(f"c18 kind=bs shape={gen.enc_shape(c['shape'])} data={core.fmt_floats(r['out'])} order={c['order']}")
+                    owner.append((ci, 'bs'))
+                else:
+                    ps = dict(kind='zoom', shape=c['shape'], data=flat, order=c['order'], mode=c.get('mode', 'constant'),
+                              _oshape=list(r['out'].shape))
+                    lines.append(_zs_line(ps)); owner.append((ci, 'zs'))
+            continue
         if 'raised' in r:
             continue
         if k in ('shift', 'zoom'):
@@ -307,7 +332,31 @@ def evaluate(cases):
         tags = dict(kind=k, order=c.get('order'), ndim=len(c['shape']), layout=c.get('layout', 'C'))
         if r.get('input_modified'):
             f.append(dict(kind='property', key=f'{k}:input-modified', detail={}))
-        if k == 'zshape':
+        if k == 'big':
+            # size-threshold stream and its small twins: the O(N) numpy oracle of c18_big (the statement's own checks)
+            tags.update(size='small' if c.get('small') else 'threshold', op=c['op'], mode=c.get('mode'))
+            if 'raised' in r:
+                f.append(dict(kind='property', key=f"big:{c['op']}:raises", detail=dict(error=r['raised'])))
+            else:
+                got = np.asarray(r['out'], np.float64)
+                for key, det in c18_big.judge(c, A, got):
+                    f.append(dict(kind='property', key=key, detail=det))
+                if c.get('small') and ci in per and not f:
+                    # the same expectation from the Lean driver: the oracle agrees with the Lean model
+                    what, d = per[ci][0]
+                    if 'error' in d:
+                        raise core.Infra('driver: ' + str(d))
+                    if what == 'bs':
+                        lean = core.floats(d['spec']).reshape(got.shape)
+                        mine = c18_big.expansion(got, c['order'])
+                    else:
+                        lean = core.floats(d['model']).reshape(got.shape)
+                        mine = got
+                    if lean.size and not (np.abs(lean - mine) <= TOL * sc * 10).all():
+                        i = tuple(int(x[0]) for x in np.nonzero(~(np.abs(lean - mine) <= TOL * sc * 10)))
+                        f.append(dict(kind='model', key=f"big:oracle-vs-lean:{c['op']}",
+                                      detail=dict(pixel=list(i), lean=float(lean[i]), oracle=float(mine[i]))))
+        elif k == 'zshape':
             # the output shape a factor asks for: real code vs the statement's int(s*z) vs the Lean model (zoomOutShape)
             d = per[ci][0][1]
             if 'error' in d:
@@ -674,10 +723,14 @@ def cases(rng, tier):
         # non-finite, integer factors, scalars and sequences, wrong lengths)
         for i in range(dict(quick=1500, thorough=30000)[tier]):
             out.append(_zshape_case(rng))
+    # size-threshold stream (line lengths / element counts across 2^8, 2^15, 2^16; thorough: > 65536 and 2^24+1)
+    out.extend(c18_big.cases(rng, tier))
     return out
 
 
 def shrink(case):
+    if case.get('kind') == 'big':
+        return
     shape = case['shape']
     A = _arr(case)
     for ax in range(len(shape)):
